@@ -462,6 +462,9 @@ func ruleRawReadWriters(c *Check, rule string) {
 			if fv, ok := v.X.(*ssa.FreeVar); ok {
 				src = closureBinding(c.P.Func(fnSendOnce), cl, fv.Name())
 			}
+			if fa, ok := v.X.(*ssa.FieldAddr); ok && envRecv(fa.X) {
+				src = closureBinding(c.P.Func(fnSendOnce), cl, fieldNameOf(fa))
+			}
 		}
 	}
 	if nst != 1 || src == "" {
@@ -480,6 +483,9 @@ func ruleRawReadWriters(c *Check, rule string) {
 	for i := range paths {
 		p := &paths[i]
 		val := src
+		if envMethods[cl] != nil && strings.HasPrefix(src, "alloc:") {
+			val = "const:false" // a field of the freshly built environment struct: zero until assigned
+		}
 		for j := range p.Events {
 			e := &p.Events[j]
 			if e.Kind == "store" && strings.HasPrefix(src, "alloc:") && e.Addr == "&"+src {
